@@ -146,6 +146,8 @@ type history struct {
 type kase struct {
 	Hist history  `json:"history"`
 	Ops  []string `json:"ops"`
+	// MaxDepth: resolver.WithMaxDepth of the long-lived resolver (0 = the default, 100)
+	MaxDepth int `json:"max_depth,omitempty"`
 }
 
 // physical description sent to the model
@@ -592,30 +594,53 @@ func (b built) wantDeep(n int) (string, bool) {
 // (shallow), all on the same long-lived resolver as x/y. A lookup that fails (a deep
 // resolution that runs into a deleted or never-defined object, a damaged container, a
 // limit) is a lookup like any other: what comes after it must not depend on it.
+//
+// Further entry points of the resolver package on the same long-lived resolver: u<n> =
+// ResolveReference(n 0 R) and w<n> = GetObject(n) (both shallow), t<n> = ResolveDict /
+// ResolveArray of the container GetObject(n) yields (an error when it is no container),
+// R = Reset() (no answer, like c).
 func parseOp(op string) (kind byte, n int) {
 	if op == "c" || op == "" {
 		return 'c', 0
+	}
+	if op == "R" {
+		return 'R', 0
 	}
 	fmt.Sscanf(op[1:], "%d", &n)
 	return op[0], n
 }
 
+// noAnswer: ClearCache and Reset.
+func noAnswer(kind byte) bool { return kind == 'c' || kind == 'R' }
+
 func isDeep(kind byte) bool {
-	return kind == 'D' || kind == 'E' || kind == 'x' || kind == 'y' || kind == 'p' || kind == 'q'
+	return kind == 'D' || kind == 'E' || kind == 'x' || kind == 'y' || kind == 'p' || kind == 'q' || kind == 't'
 }
 
 // isStored: the lookups that must yield the newest value exactly as stored.
-func isStored(kind byte) bool { return kind == 'g' || kind == 'r' || kind == 's' || kind == 'z' }
+func isStored(kind byte) bool {
+	return kind == 'g' || kind == 'r' || kind == 's' || kind == 'z' || kind == 'u' || kind == 'w'
+}
+
+// onResolver: the deep lookups that go through the resolver package (bounded by its maxDepth).
+func onResolver(kind byte) bool {
+	return kind == 'x' || kind == 'y' || kind == 'p' || kind == 'q' || kind == 't'
+}
 
 type session struct {
 	rd  *reader.Reader
 	res *resolver.ObjectResolver
 }
 
-func openSession(path string) (*session, error) {
+func openSession(path string) (*session, error) { return openSessionD(path, 0) }
+
+func openSessionD(path string, maxDepth int) (*session, error) {
 	rd, err := reader.Open(path)
 	if err != nil {
 		return nil, err
+	}
+	if maxDepth > 0 {
+		return &session{rd: rd, res: resolver.NewResolver(rd, resolver.WithMaxDepth(maxDepth))}, nil
 	}
 	return &session{rd: rd, res: resolver.NewResolver(rd)}, nil
 }
@@ -655,6 +680,25 @@ func (s *session) do(op string) (core.Object, error) {
 		return s.res.ResolveDeep(obj)
 	case 'z':
 		return s.res.GetObjectResolved(n)
+	case 'u':
+		return s.res.ResolveReference(ref)
+	case 'w':
+		return s.res.GetObject(n)
+	case 't':
+		obj, err := s.rd.GetObject(n)
+		if err != nil {
+			return nil, err
+		}
+		switch v := obj.(type) {
+		case core.Dict:
+			return s.res.ResolveDict(v)
+		case core.Array:
+			return s.res.ResolveArray(v)
+		}
+		return nil, fmt.Errorf("harness: object %d is no container", n)
+	case 'R':
+		s.res.Reset()
+		return nil, nil
 	}
 	return nil, fmt.Errorf("harness: unknown op %q", op)
 }
@@ -681,10 +725,11 @@ func runCase(c *hx.Ctx, k kase, tag string) {
 	var xref, xrefFull string
 	var byteNums []int     // the GetObject / Resolve lookups, for the byte-level model
 	var byteRes []string
+	var apiRes []string // every op, for the model of the whole API on the cached reader
 	opened := false
 	openErr := ""
 	if !c.Guard("C04", k, 10, func() {
-		s, err := openSession(path)
+		s, err := openSessionD(path, k.MaxDepth)
 		if err != nil {
 			openErr = err.Error()
 			return
@@ -696,10 +741,14 @@ func runCase(c *hx.Ctx, k kase, tag string) {
 		for _, op := range k.Ops {
 			kind, _ := parseOp(op)
 			obj, err := s.do(op)
-			if kind == 'c' {
-				modelOps = append(modelOps, "c")
+			if noAnswer(kind) {
+				if kind == 'c' {
+					modelOps = append(modelOps, "c")
+				}
+				apiRes = append(apiRes, "-")
 				continue
 			}
+			apiRes = append(apiRes, renderDeepLookup(obj, err))
 			res = append(res, classify(obj, err))
 			fulls = append(fulls, full(obj, err))
 			if err != nil {
@@ -716,13 +765,13 @@ func runCase(c *hx.Ctx, k kase, tag string) {
 			}
 		}
 		for _, op := range k.Ops {
-			if kind, _ := parseOp(op); kind == 'c' {
+			if kind, _ := parseOp(op); noAnswer(kind) {
 				continue
 			}
 			if _, done := alone[op]; done {
 				continue
 			}
-			f, err := openSession(path)
+			f, err := openSessionD(path, k.MaxDepth)
 			if err != nil {
 				alone[op] = "open-error"
 				continue
@@ -742,12 +791,14 @@ func runCase(c *hx.Ctx, k kase, tag string) {
 		return
 	}
 	c.Op(b.opLine(modelOps), fmt.Sprintf("xref=[%s] res=[%s]", xref, strings.Join(modelRes, ",")))
-	fileOp(c, b.data, inflateTable(append(b.inflate, scanInflate(b.data)...)), xrefFull, byteNums, byteRes)
+	infl := inflateTable(append(b.inflate, scanInflate(b.data)...))
+	fileOp(c, b.data, infl, xrefFull, byteNums, byteRes)
+	apiOp(c, b.data, infl, k.MaxDepth, "full", k.Ops, apiRes)
 	nontrivial := false
 	i := 0
 	for _, op := range k.Ops {
 		kind, n := parseOp(op)
-		if kind == 'c' {
+		if noAnswer(kind) {
 			continue
 		}
 		got, gotFull := res[i], fulls[i]
@@ -763,7 +814,15 @@ func runCase(c *hx.Ctx, k kase, tag string) {
 		}
 		if isDeep(kind) {
 			want, fixed := b.wantDeep(n)
+			notContainer := false
+			if a, ok := b.newest[n]; kind == 't' && ok && a.Kind != "del" && !a.Dict && !a.Arr {
+				notContainer = true // ResolveDict / ResolveArray need a container
+			}
 			switch {
+			case notContainer:
+				c.Count("container-lookup-of-a-scalar")
+			case k.MaxDepth != 0 && onResolver(kind):
+				c.Count("deep-on-bounded-resolver") // the limit may refuse it: compared with the model and the fresh reader only
 			case !fixed:
 				c.Count("deep-target-unresolvable")
 			case want == "e":
@@ -806,17 +865,19 @@ func runCase(c *hx.Ctx, k kase, tag string) {
 
 func genOps(r *hx.Rng, maxNum int) []string {
 	n := r.Range(3, 14)
-	kinds := []string{"g", "g", "g", "g", "g", "r", "r", "D", "D", "E", "x", "y", "s", "s", "p", "p", "q", "z"}
+	kinds := []string{"g", "g", "g", "g", "g", "r", "r", "D", "D", "E", "x", "y", "s", "s", "p", "p", "q", "z", "t", "u", "w"}
 	var ops []string
 	for i := 0; i < n; i++ {
 		switch {
 		case r.Chance(1, 8):
 			ops = append(ops, "c")
+		case r.Chance(1, 16):
+			ops = append(ops, "R")
 		case len(ops) > 0 && r.Chance(1, 4):
 			ops = append(ops, hx.Pick(r, ops)) // repeat an earlier op
 		case len(ops) > 0 && r.Chance(1, 3):
 			// the object of an earlier lookup again, through another kind of lookup
-			if kind, m := parseOp(hx.Pick(r, ops)); kind != 'c' {
+			if kind, m := parseOp(hx.Pick(r, ops)); !noAnswer(kind) {
 				ops = append(ops, fmt.Sprintf("%s%d", hx.Pick(r, kinds), m))
 				break
 			}
@@ -1105,10 +1166,12 @@ func entryOps(c *hx.Ctx) {
 func Run(c *hx.Ctx) {
 	entryOps(c)
 	byteOps(c)
-	c.Rep.Rule = "revision histories (add/replace/delete per object per revision; values integers, dictionaries and arrays that hold references to other objects, nested containers, dangling references; classic or stream xref per revision; object-stream membership; indirect /Length; W widths; predictors) rendered by the harness PDF writer, then lookup sequences over GetObject, Resolve, ResolveDeep (of a reference and of a looked-up container) and the resolver package on one long-lived resolver (its resetting wrappers GetObjectResolvedDeep / ResolveReferenceDeep / GetObjectResolved and its own entry points Resolve / ResolveDeep of a reference and of a looked-up container, which keep the resolver's state between calls), with repeats and ClearCache, every answer also compared with the same lookup alone on a fresh reader; exhaustive for n=2 objects x r<=2 (thorough: r<=3) revisions x both xref kinds; non-trivial = at least one lookup expected to succeed; distinct by (history, ops); at the bounds of the C02 repairs (bounds.go): chain files in which 1,2,3,14,15,16,17,18,40,300 (thorough 1000, 5000) objects are loaded inside each other through indirect /Length (limit 16), every object alone on a fresh reader and in lookup sequences with cache clears; object streams with header offsets, /N and /First at len-1/len/len+1/2^31/2^62/2^63-1, every index asked twice; deep resolution of reference chains around 49/50 and 1000/1001 objects, shared graphs of 2^40 paths, page/parent cycles, each followed on the same resolver by lookups of the objects on the refused path; document-shaped histories (seq.go: a root, every object referenced from a lower-numbered one, some from two; later revisions delete objects that unchanged objects still refer to, replace them or define them again) with lookup sequences that start deep resolutions which must fail below their starting point and then look up the objects on and off the failed path through every kind of lookup"
+	c.Rep.Rule = "revision histories (add/replace/delete per object per revision; values integers, dictionaries and arrays that hold references to other objects, nested containers, dangling references; classic or stream xref per revision; object-stream membership; indirect /Length; W widths; predictors) rendered by the harness PDF writer, then lookup sequences over GetObject, Resolve, ResolveDeep (of a reference and of a looked-up container) and the resolver package on one long-lived resolver (its resetting wrappers GetObjectResolvedDeep / ResolveReferenceDeep / GetObjectResolved and its own entry points Resolve / ResolveDeep of a reference and of a looked-up container, which keep the resolver's state between calls), with repeats and ClearCache, every answer also compared with the same lookup alone on a fresh reader; exhaustive for n=2 objects x r<=2 (thorough: r<=3) revisions x both xref kinds; non-trivial = at least one lookup expected to succeed; distinct by (history, ops); at the bounds of the C02 repairs (bounds.go): chain files in which 1,2,3,14,15,16,17,18,40,300 (thorough 1000, 5000) objects are loaded inside each other through indirect /Length (limit 16), every object alone on a fresh reader and in lookup sequences with cache clears; object streams with header offsets, /N and /First at len-1/len/len+1/2^31/2^62/2^63-1, every index asked twice; deep resolution of reference chains around 49/50 and 1000/1001 objects, shared graphs of 2^40 paths, page/parent cycles, each followed on the same resolver by lookups of the objects on the refused path; document-shaped histories (seq.go: a root, every object referenced from a lower-numbered one, some from two; later revisions delete objects that unchanged objects still refer to, replace them or define them again) with lookup sequences that start deep resolutions which must fail below their starting point and then look up the objects on and off the failed path through every kind of lookup; every one of these lookup sequences (and those on the chain files, and probes of the deep chains and shared graphs) is also replayed by the model of the whole API on the bytes - the reader WITH its caches, one long-lived resolver, every entry point incl. ResolveReference, GetObject, ResolveDict/ResolveArray and Reset of the resolver package, resolvers with depth limits 1..9 (c04.api); reference graphs of any shape (api.go: cycles, self references, references with a generation, dangling references, streams inside containers, two revisions, classic or stream xref) with every lookup also made alone on two freshly opened readers; the depth limit of the resolver package against a shared result (the same reference high up and too deep, as dictionary values and as array elements in both orders, 24 fresh resolvers each); files of one to three revisions with differing trailers (/Root and /Info as references, direct objects, missing; /Size of every kind; /XRefStm; versions) through Trailer, NumObjects, GetCatalog, GetInfo, Version mixed with lookups and cache clears (cat.go, c04.cat); the resolver call ParseIndirectObject makes, on every generated indirect object (c04.ask)"
 	exhaustive(c, 2, 1)
 	exhaustive(c, 2, 2)
 	afterFailureOps(c)
+	apiOps(c)
+	catOps(c)
 	if c.Thorough() {
 		exhaustive(c, 2, 3)
 		exhaustive(c, 3, 2)
@@ -1136,6 +1199,10 @@ func Run(c *hx.Ctx) {
 		}
 		b := build(h)
 		k := kase{Hist: h, Ops: genOps(r, b.maxNum)}
+		if r.Chance(1, 6) {
+			k.MaxDepth = r.Range(1, 7) // a resolver whose depth limit the small graphs reach
+			c.Count("bounded-resolver")
+		}
 		for _, n := range b.hot {
 			k.Ops = append(k.Ops, fmt.Sprintf("g%d", n))
 		}
@@ -1152,6 +1219,18 @@ func Run(c *hx.Ctx) {
 
 func Replay(c *hx.Ctx, m map[string]interface{}) {
 	if replayBounds(c, m) {
+		return
+	}
+	if m["cat"] != nil {
+		var k catCase
+		hx.Remarshal(m, &k)
+		runCat(c, k)
+		return
+	}
+	if m["graph"] != nil {
+		var k graphCase
+		hx.Remarshal(m, &k)
+		runGraph(c, k)
 		return
 	}
 	var k kase
